@@ -122,6 +122,10 @@ def run(tier, seed, build):
         if r["q"] == "k0" and pd["model"] in ("plate", "cpanel") and fr(pd["y1"]) == 0 and fr(pd["y2"]) == fr(pd["b"]):
             rn = dict(r, num=[pd["m"] + 3, pd["n"] + 3])
             ev(pd, rn, "numerically integrated kernel at the undeformed state", tol=34)
+            # the same pair with the laminate forced orthotropic (the flag must reach both kernel families)
+            po = dict(copy.deepcopy(pd), ortho=True)
+            ev(po, r, "analytic kernel, laminate forced orthotropic")
+            ev(po, rn, "numerically integrated kernel, laminate forced orthotropic", tol=34)
     # eigenvalue observations: axis exchange and similarity (dense solver paths)
     s, e, q = Fraction(2), Fraction(9), Fraction(4)
     for pd, r in pairs:
